@@ -13,6 +13,7 @@ DECIDED = ("R1 Board::state is, exactly, the table (no legal move, in check) -> 
            "classes: knight and pawn attack tables at the king square, bishop/rook rays, `between`, Bishop|Queen and Rook|Queen of the mover, with the slider loop unconditional "
            "and both cached sets cleared before being rebuilt; R4 every successful return of the FEN parser and of the builder is dominated by the from-scratch refresh.")
 DECIDED = DECIDED + ' R6 holds on EVERY way out of update_pin_info (an early return in front of the knight/pawn checkers is reported).'
+DECIDED = DECIDED + ' R3/R4/R6: the from-scratch computation is found by role (the private function both constructors call, whose call tree consults `between` and which establishes pinned and checkers), as a `&mut Board` method or as a function returning the pair that both constructors store (which component is which is read off their stores; disagreeing callers are reported; the Ok return must be dominated by both stores).'
 NOT_DECIDED = ("equality of incrementally maintained and rebuilt state on actual histories (needs the semantics of the bitboard arithmetic on real positions); "
                "'in check exactly when the king is attacked' beyond the dependence clauses of R3")
 EXPLANATION = "K4 decision table for state/in_check; K2 dominance for the constructors; K3 dependence signatures (set of lookups/fields reached) for the two computations of the cached sets."
